@@ -102,3 +102,30 @@ Proof.
   assert (Hx : In (m, pat, id) (matches acc m q)) by (apply matches_In; auto).
   rewrite E in Hx. destruct Hx.
 Qed.
+
+(* ---- engine: method and path reach Router.Handle untouched ---- *)
+(* bindRoute's only registration call is router.Handle(route.Method, route.Path, finalHandler) *)
+Lemma link_bind_handle_args : C03_Gen.bind_handle_args = ["route.Method"; "route.Path"; "finalHandler"]%string.
+Proof. reflexivity. Qed.
+
+(* WithPrefix replaces the path by path.Join(group, rt.Path) (Path.join2) *)
+Lemma link_prefix_join_args : C03_Gen.prefix_join_args = ["group"; "rt.Path"]%string.
+Proof. reflexivity. Qed.
+
+Lemma link_with_prefix_calls : C03_Gen.with_prefix_calls = ["path.Join"; "append"; "return"]%string.
+Proof. reflexivity. Qed.
+
+(* bindRoutes / bindFeaturedRoutes: every group, every route, first error returned (engine_bind) *)
+Lemma link_bind_routes_calls : C03_Gen.bind_routes_calls =
+  ["ng.createMetrics"; "ng.bindFeaturedRoutes"; "return"; "return"]%string.
+Proof. reflexivity. Qed.
+
+Lemma link_bind_featured_calls : C03_Gen.bind_featured_calls =
+  ["ng.signatureVerifier"; "return"; "ng.bindRoute"; "return"; "return"]%string.
+Proof. reflexivity. Qed.
+
+Lemma link_add_routes_calls : C03_Gen.add_routes_calls = ["append"]%string.
+Proof. reflexivity. Qed.
+
+Lemma link_server_add_routes_calls : C03_Gen.server_add_routes_calls = ["opt"; "s.ng.addRoutes"]%string.
+Proof. reflexivity. Qed.
